@@ -631,6 +631,7 @@ def run(ctx):
     files = [("file", f) for f in shipped_files()]
     items += alpha + [("spec",)] + [("special", t, x) for t, x in SPECIALS] + files
     R.rpmap(ctx, _item, items, init=_init, label=_label)
+    ctx.extra["violation_keys"] = sorted(v[0] for v in ctx.violations)
     ctx.extra["schema_edges"] = nedge
     ctx.extra["alphabet_models"] = len(alpha)
     ctx.extra["shipped_files_found"] = len(files)
